@@ -79,6 +79,13 @@ func simpleDoc(r *sim.Rand) pdfw.DocSpec {
 	sp.Superscripts = r.Pct(25)
 	sp.GState = r.Pct(40)
 	if r.Pct(35) {
+		sp.FormXObj = true
+		sp.FormNest = r.Intn(3)
+		if sp.Lines < 4 {
+			sp.Lines = 4
+		}
+	}
+	if r.Pct(35) {
 		sp.Running = 1 + r.Intn(5)
 	}
 	if r.Pct(35) {
